@@ -143,8 +143,8 @@ PROPS['C01'] = dict(
     design='DESIGN.md 3/C01',
     technique='generated per-production verification conditions (faithful: consumed fragments == leaves in derive order) discharged by Verus/z3, plus Verus contracts on the real conversion / derive / get_str code',
     level_text='For each of the ~1300 productions and the utils.rs combinators a generated lemma states that the leaves of the returned node, in derive order, are exactly the fragments consumed, in order, once each (a dropped token, a token stored twice, swapped fields, a terminated/preceded that discards a consuming parser, a stored look-ahead all make the lemma unprovable); the top-level productions start with the leading trivia and read to eof (prefix in incomplete mode); children are enumerated in field order (conv, derive), iteration is pre-order (iter), the Locate fold and get_str span first to last leaf (derive, getstr).',
-    level_note=GVC_NOTE + ' One production (method_call) is outside the analysed subset and is reported, not counted.',
-    not_covered=['method_call (loop that rebuilds a nested node)', 'that primitives (tag, is_a, ..) report exact offsets/lines (A-nom)', 'line numbers of leaves (nom_locate)'],
+    level_note=GVC_NOTE + ' Every production of the pinned tree is inside the analysed subset (method_call through the generated fold induction, rule L3).',
+    not_covered=['that primitives (tag, is_a, ..) report exact offsets/lines (A-nom)', 'line numbers of leaves (nom_locate)'],
 )
 PROPS['C07'] = dict(
     title='history independence',
